@@ -179,6 +179,160 @@ func (c *Ctx) SameStore(prop string) {
 	if len(keys) == 1 {
 		c.R.OK(rule, Fn(opt), c.P.FuncPos(opt), "every place that configures the store directory passes "+keys[0])
 	}
+	// 5. the directory does not depend on where the process was started: the expression is the result of a module resolver
+	// every return of which is its argument below [filepath.IsAbs(argument)], or filepath.Join(anchor, ...) with the anchor a
+	// configured value known to be non-empty or the user's home directory obtained without error. A relative directory is
+	// resolved against the working directory by the operating system: a restart from another directory then opens an empty
+	// database and every earlier signature is forgotten.
+	rule7 := "C03.O7 store.location-anchored"
+	na := 0
+	for _, t := range keys {
+		for _, ci := range terms[t] {
+			na++
+			v := an.StripConv(ci.Common().Args[optArg])
+			call, isCall := v.(*ssa.Call)
+			if !isCall || call.Call.IsInvoke() || call.Call.StaticCallee() == nil || !prog.InModule(call.Call.StaticCallee()) || call.Call.StaticCallee().Blocks == nil {
+				c.R.Fail(rule7, Fn(ci.Parent()), c.Pos(ci), "the store directory is not passed through the module's path resolver: "+an.Term(v), "an absolute directory: resolver(configured path)", nil)
+				continue
+			}
+			R := call.Call.StaticCallee()
+			if why, pos := c.anchoredResolver(R); why != "" {
+				c.R.Fail(rule7, Fn(R), pos, why, "every result is the argument below [filepath.IsAbs(argument)] or filepath.Join(<non-empty configured base | home directory>, ...)", nil)
+			} else {
+				c.R.OK(rule7, Fn(R), c.P.FuncPos(R), "every result of the resolver is absolute: the argument below [IsAbs], or joined onto a non-empty configured base or the home directory")
+			}
+		}
+	}
+	c.R.Floor(rule7, "store directory expressions", na, 1)
+}
+
+// anchoredResolver validates a path resolver (see SameStore step 5); returns "" or the reason and its position.
+func (c *Ctx) anchoredResolver(R *ssa.Function) (string, string) {
+	if len(R.Params) == 0 {
+		return "the resolver has no argument", c.P.FuncPos(R)
+	}
+	emptyStr := func(v ssa.Value) bool { k, ok := v.(*ssa.Const); return ok && an.Term(k) == `""` }
+	nonEmptyAtom := func(a *an.Atom, g ssa.Value) bool {
+		if a == nil || a.Op != "!=" {
+			return false
+		}
+		return (a.LV == g && emptyStr(a.RV)) || (a.RV == g && emptyStr(a.LV))
+	}
+	isHome := func(v ssa.Value) (*ssa.Call, bool) {
+		ex, ok := v.(*ssa.Extract)
+		if !ok || ex.Index != 0 {
+			return nil, false
+		}
+		call, ok := ex.Tuple.(*ssa.Call)
+		if !ok || call.Call.StaticCallee() == nil {
+			return nil, false
+		}
+		switch call.Call.StaticCallee().String() {
+		case "github.com/mitchellh/go-homedir.Dir", "os.UserHomeDir":
+			return call, true
+		}
+		return nil, false
+	}
+	isConfigured := func(v ssa.Value) bool {
+		call, ok := v.(*ssa.Call)
+		return ok && call.Call.StaticCallee() != nil && call.Call.StaticCallee().String() == "github.com/spf13/viper.GetString"
+	}
+	// anchor base used at instruction `use`; viaEdge (pred block, succ index) is the CFG edge through which the value flows when it
+	// comes out of a phi
+	var anchored func(base ssa.Value, use ssa.Instruction, pred *ssa.BasicBlock, si int, depth int) string
+	anchored = func(base ssa.Value, use ssa.Instruction, pred *ssa.BasicBlock, si int, depth int) string {
+		if depth > 4 {
+			return "the base directory is not understood"
+		}
+		if phi, ok := base.(*ssa.Phi); ok {
+			for i, e := range phi.Edges {
+				pb := phi.Block().Preds[i]
+				k := 0
+				for j, sx := range pb.Succs {
+					if sx == phi.Block() {
+						k = j
+					}
+				}
+				if why := anchored(e, use, pb, k, depth+1); why != "" {
+					return why
+				}
+			}
+			return ""
+		}
+		if call, ok := isHome(base); ok {
+			errV := ssa.Value(nil)
+			for _, r := range *call.Referrers() {
+				if ex, ok := r.(*ssa.Extract); ok && ex.Index == 1 {
+					errV = ex
+				}
+			}
+			if errV == nil {
+				return "the home directory is used although its lookup may have failed (an empty base makes the result relative)"
+			}
+			x, _ := an.Cut(an.CutQuery{From: an.After(call), Target: func(i ssa.Instruction) bool { return i == use },
+				AcceptEdge: func(b *ssa.BasicBlock, i int, a *an.Atom) bool {
+					return a != nil && a.Op == "==" && ((a.LV == errV && isNilConst(a.RV)) || (a.RV == errV && isNilConst(a.LV)))
+				}})
+			if x != nil {
+				return "the home directory is used although its lookup may have failed (an empty base makes the result relative)"
+			}
+			return ""
+		}
+		if isConfigured(base) {
+			if pred != nil {
+				if nonEmptyAtom(an.EdgeAtom(pred, si), base) {
+					return ""
+				}
+			}
+			x, _ := an.Cut(an.CutQuery{From: an.After(base.(ssa.Instruction)), Target: func(i ssa.Instruction) bool { return i == use },
+				AcceptEdge: func(b *ssa.BasicBlock, i int, a *an.Atom) bool { return nonEmptyAtom(a, base) }})
+			if x != nil && pred == nil {
+				return "the configured base directory may be empty where it is used (an empty base makes the result relative)"
+			}
+			if x != nil {
+				return "the configured base directory may be empty where it is chosen (an empty base makes the result relative)"
+			}
+			return ""
+		}
+		return "the result is joined onto something other than a configured base directory or the home directory: " + an.Term(base)
+	}
+	p := ssa.Value(R.Params[len(R.Params)-1])
+	for _, ret := range an.Returns(R) {
+		if len(ret.Results) == 0 {
+			continue
+		}
+		v := an.StripConv(an.Result(ret, 0))
+		if cl, ok := isCallToName(v, "path/filepath.Clean"); ok {
+			v = cl.Call.Args[0]
+		}
+		if v == p {
+			target := ssa.Instruction(ret)
+			x, _ := an.Cut(an.CutQuery{From: an.Entry(R), Target: func(i ssa.Instruction) bool { return i == target },
+				AcceptEdge: func(b *ssa.BasicBlock, i int, a *an.Atom) bool {
+					if a == nil || a.Op != "true" {
+						return false
+					}
+					call, ok := isCallToName(a.LV, "path/filepath.IsAbs")
+					return ok && call.Call.Args[0] == p
+				}})
+			if x != nil {
+				return "the resolver can return its argument unchanged although it is not absolute", c.Pos(ret)
+			}
+			continue
+		}
+		join, ok := isCallToName(v, "path/filepath.Join")
+		if !ok {
+			return "a result of the resolver is neither its absolute argument nor filepath.Join(base, ...): " + an.Term(v), c.Pos(ret)
+		}
+		parts := varargValues(join.Call.Args[0])
+		if len(parts) == 0 {
+			return "the parts joined by the resolver are not understood", c.Pos(join)
+		}
+		if why := anchored(an.StripConv(parts[0]), join, nil, 0, 0); why != "" {
+			return why, c.Pos(join)
+		}
+	}
+	return "", ""
 }
 
 func derefT(t types.Type) types.Type {
